@@ -153,4 +153,7 @@ def record(desper, K, seed, n_traces, n_calls):
                   'qlen': qlen, 'log': [list(x[:3]) if len(x) == 3 else list(x) for x in obs['log']]}
             events.append(ev)
         traces.append({'events': events})
+        if len(traces) % 20 == 0:
+            import gc
+            gc.freeze()         # recorded traces never become garbage: keep the adapter's gc.collect() calls cheap
     return traces
